@@ -1,2 +1,102 @@
--- driver stub (not built yet)
-def main : IO Unit := pure ()
+import QmcModel.Proto
+import QmcModel.Classical
+open Qmc Qmc.Proto Qmc.Classical
+
+/-
+C19 driver. Graph tokens: `<edges> <biases>`; edges = comma list of `a:b:num/den` (`-` = none).
+ traj <edges> <biases> <beta> <imp> <ns> <ne> <nw> <basic> <state0> <nsteps> <words>
+      → `<state> <energy>` after every step, then the RNG verdict
+ thr  <edges> <biases> <beta> <kind spin|edge> <target> <state>
+      → `nodraw`|`~p`  <state after an accepted move>
+ imp  <edges> <nbiases>            → `~b_k` cumulative selection boundaries (k = 0..E-2), `P` if it panics
+ kern <kind spin|edge|worm> <edges> <biases> <beta> <imp>
+      → `~K(a,b)` for all states a, b (binary counting order, spin 0 = most significant)
+ energy <edges> <biases> <state>   → `<get_energy> <edge-list energy>`
+-/
+
+def parseEdge (s : String) : Edge :=
+  match s.splitOn ":" with
+  | [a, b, j] => ((parseNat a, parseNat b), parseRat j)
+  | _ => ((0, 0), 0)
+
+def parseEdges : String → List Edge := parseList parseEdge
+
+def parseOptNat (s : String) : Option Nat := if s == "-" then none else some (parseNat s)
+
+def chOf (beta : Rat) : Rat → Rat := fun de => expNeg (beta * de)
+
+def allStates : Nat → List (List Bool)
+  | 0 => [[]]
+  | n + 1 => (allStates n).flatMap fun s => [false :: s, true :: s]
+
+/-- states in binary counting order, spin 0 most significant -/
+def statesOrdered (n : Nat) : List (List Bool) :=
+  (List.range (2 ^ n)).map fun k => (List.range n).map fun i => (k / 2 ^ (n - 1 - i)) % 2 == 1
+
+def rowProb (r : List (Rat × List Bool)) (t : List Bool) : Rat :=
+  ((r.filter fun x => x.2 == t).map (·.1)).sum
+
+def trajLoop (ch : Rat → Rat) (g : Sampler) (ns ne nw : Option Nat) (basic : Bool) :
+    Nat → List Bool × RS → List String → List String × RS
+  | 0, x, acc => (acc.reverse, x.2)
+  | k + 1, x, acc =>
+    let x' := doTimeStep ch g ns ne nw basic x
+    let e := getEnergy g.bm g.biases x'.1
+    trajLoop ch g ns ne nw basic k x' (s!"{showBits x'.1} {showRat e}" :: acc)
+
+def step (toks : List String) : String :=
+  match toks with
+  | ["traj", edges, biases, beta, imp, ns, ne, nw, basic, state0, nsteps, words] =>
+    let g := Sampler.new (parseEdges edges) (parseRats biases) (imp == "1")
+    let ch := chOf (parseRat beta)
+    let rs := RS.ofScript (parseNats words)
+    let (outs, rs') := trajLoop ch g (parseOptNat ns) (parseOptNat ne) (parseOptNat nw) (basic == "1")
+      (parseNat nsteps) (parseBits state0, rs) []
+    if rs'.panicked then "PANIC" else
+    String.intercalate " " (outs ++ [rs'.verdict])
+  | ["thr", edges, biases, beta, kind, target, state] =>
+    let g := Sampler.new (parseEdges edges) (parseRats biases) false
+    let s := parseBits state
+    let t := parseNat target
+    let (de, s') :=
+      if kind == "spin" then (spinDelta g.bm g.biases s t, flipAt s t)
+      else
+        let e := g.edges.getD t ((0, 0), 0)
+        (edgeDelta g.bm g.biases s e.1.1 e.1.2, flipAt (flipAt s e.1.1) e.1.2)
+    let p := if de > 0 then showApprox (accProb (chOf (parseRat beta)) de) else "nodraw"
+    s!"{p} {showBits s'}"
+  | ["imp", edges, nb] =>
+    let es := parseEdges edges
+    let g := Sampler.new es (List.replicate (parseNat nb) 0) true
+    match g.cum with
+    | none => "bad"
+    | some (table, total) =>
+      if total ≤ 0 then "P"
+      else if !strictlyIncreasing table then "?"
+      else
+        let pos (x : Rat) : Rat := if x < 0 then 0 else x
+        let bs := (table.take (table.length - 1)).map fun v => showApprox (pos v / total)
+        if bs.isEmpty then "-" else String.intercalate " " bs
+  | ["kern", kind, edges, biases, beta, imp] =>
+    let g := Sampler.new (parseEdges edges) (parseRats biases) (imp == "1")
+    let ch := chOf (parseRat beta)
+    let n := g.biases.length
+    let sts := statesOrdered n
+    let bad := match g.cum with
+      | some (table, total) => decide (total ≤ 0) || !strictlyIncreasing table
+      | none => false
+    if bad && kind == "edge" then "?" else
+    let rowOf (s : List Bool) : List (Rat × List Bool) :=
+      if kind == "spin" then spinRow ch g.bm g.biases s
+      else if kind == "edge" then edgeRow ch g s
+      else wormRow ch g.bm g.biases true s
+    String.intercalate " " (sts.flatMap fun a =>
+      let r := rowOf a
+      sts.map fun b => showApprox (rowProb r b))
+  | ["energy", edges, biases, state] =>
+    let g := Sampler.new (parseEdges edges) (parseRats biases) false
+    let s := parseBits state
+    s!"{showRat (getEnergy g.bm g.biases s)} {showRat (energyEdges g.edges g.biases s)}"
+  | _ => "bad-op"
+
+def main : IO Unit := run step
